@@ -383,7 +383,13 @@ impl Visitor<Diagnostic> for RuleGraphReferenceableElements {
                         self.declarations.graph.add_edge(to, from, ());
                     }
                     InitialValueAssignmentKind::Subrange(_) => {}
-                    InitialValueAssignmentKind::Structure(_) => {}
+                    InitialValueAssignmentKind::Structure(structure) => {
+                        // An element that is initialized as a structure is a
+                        // reference to that structure type
+                        let this = self.declarations.add_node(from);
+                        let depends_on = self.declarations.add_node(&structure.type_name.name);
+                        self.declarations.graph.add_edge(depends_on, this, ());
+                    }
                     InitialValueAssignmentKind::Array(array) => {
                         // The elements of the array can be structures or function blocks
                         // so the array is a reference to the type of the elements
